@@ -561,6 +561,7 @@ def e2_scenarios(tier):
     from ..e2 import scenarios as SC
     from ..worlds import S, World
     w = World("one-d", {"s": ["0", "1"], "d/k": ["0"]}, {"x.do": [S(deps=["s"])]}, ["x"], ["x"])
+    wl = World("one-link", {"s": ["0", "1"], "d/k": ["0"]}, {"d/y.do": [S(deps=["../s"])]}, ["d/y"], ["d/y"], symlinks={"ld": "d"})
     vis = SC.LOCKS + ["tok-read", "tok-write", "select-order"]
     q = tier == "quick"
     L = []
@@ -569,6 +570,9 @@ def e2_scenarios(tier):
     L.append((SC.scn("three-spellings-while-locked-j2", w, ["redo-ifchange x", "redo --no-log -j2 ./x d/../x x"], visible=vis), 1 if q else 2))
     # two invocations, each with its own spelling: one record, one lock byte, no overlap
     L.append((SC.scn("two-invocations-two-spellings", w, ["redo-ifchange ./x", "redo-ifchange d/../x"], visible=vis), 1 if q else 2))
+    # the same file reached through a symbolic link to its directory
+    L.append((SC.scn("two-invocations-through-dir-symlink", wl, ["redo-ifchange ld/y", "redo-ifchange d/y"], visible=vis, target="d/y",
+                     want="y(0)\n"), 1 if q else 2))
     if not q:
         L.append((SC.scn("three-spellings-j2", w, ["redo --no-log -j2 x ./x d/../x"], visible=vis), 2))
         L.append((SC.scn("redo-vs-redo-two-spellings", w, ["redo --no-log ./x x", "redo --no-log d/../x .//x"], visible=vis), 2))
@@ -589,11 +593,12 @@ def e2_oracle(scn, res):
     for n, rc in res["roots"].items():
         if rc != 0:
             out.append(({"kind": "command-failed", "scenario": scn["name"], "rc": rc}, {"stderr": res["stderr"].get(n, "")[-500:]}))
-    names = [r[0] for r in (res.get("dbrows") or []) if os.path.normpath(r[0]) == "x"]
-    if names != ["x"]:
+    tgt = scn.get("target", "x")
+    names = [r[0] for r in (res.get("dbrows") or []) if os.path.normpath(r[0]).replace("ld/", "d/") == tgt]
+    if names != [tgt]:
         out.append(({"kind": "records-for-one-file", "scenario": scn["name"], "names": names}, {}))
-    if res["files"].get("x") != "x(0)\n":
-        out.append(({"kind": "wrong-content", "scenario": scn["name"]}, {"got": res["files"].get("x")}))
+    if res["files"].get(tgt) != scn.get("want", "x(0)\n"):
+        out.append(({"kind": "wrong-content", "scenario": scn["name"]}, {"got": res["files"].get(tgt)}))
     return out
 
 
